@@ -188,10 +188,10 @@ def run(tier, seed, replay):
                   "Proof. exact (composition_sinks is_sink forbidden checked_entry table_%s table_%s_ok). Qed." % (fam, fam),
                   "Print Assumptions C02_current_tree_%s." % fam, ""]
     gen = os.path.join(vlib.COQ, "Gen_Rules_C02.v")
-    with open(gen, "w") as f:
-        f.write("\n".join(lines) + "\n")
     lock = vlib.coq_lock()
     try:
+        with open(gen, "w") as f:
+            f.write("\n".join(lines) + "\n")
         rc, cout = vlib.sh(["timeout", "900", "coqc", "-Q", ".", "RLBoxV", "Gen_Rules_C02.v"], cwd=vlib.COQ, timeout=1000)
     finally:
         lock.close()
